@@ -77,7 +77,7 @@ def write_if_changed(path: Path, content: str) -> bool:
 
 def lake_build(targets, timeout=1500):
     """Build lake targets (module names as `Props.C10`, or `driver`).  Returns (ok, output)."""
-    args = ["lake", "build"] + [t if t == "driver" else "+" + t for t in targets]
+    args = ["lake", "build"] + [("+" + t) if "." in t else t for t in targets]
     with lean_lock():
         rc, out, wall = run(args, cwd=LEAN, timeout=timeout)
     out = "\n".join(l for l in out.splitlines() if "toolchain not updated" not in l)
